@@ -11,3 +11,5 @@ for p in "$@"; do
   echo "   [$p exit $rc]"
 done
 git -C /repo checkout -- . && git -C /repo status --short | head -3
+# evidence written while the seeded change was applied must not be kept
+git -C /verif checkout -- evidence 2>/dev/null
